@@ -11,14 +11,14 @@ Full == [st |-> St, g |-> [fwdMap |-> fwdMap, ackedWire |-> ackedWire, shown |->
 ObsNext == [out |-> out', pending |-> pending', done |-> done']
 Labelled(E(_)) ==
     /\ TLCGet("level") < Depth
-    /\ \/ \E d \in D, k \in 1..MaxEp, rel \in BOOLEAN, kind \in {"msg", "pa"}, disp \in {"fwd", "drop", "take"} :
+    /\ \/ \E d \in D, k \in MinEp..MaxEp, rel \in BOOLEAN, kind \in {"msg", "pa"}, disp \in {"fwd", "drop", "take"} :
              \E A \in AckChoices(d, MaxAcks) :
                 \E n \in 0..Len(A) :
                     /\ EndpointSend(d, k, rel, kind, SubSeq(A, 1, n), SubSeq(A, n + 1, Len(A)), disp)
                     /\ E([n |-> "Send", d |-> d, k |-> k, rel |-> rel, kind |-> kind, disp |-> disp,
                           a1 |-> SubSeq(A, 1, n), a2 |-> SubSeq(A, n + 1, Len(A)), resend |-> k \in epSent[d]])
        \/ \E d \in D, rel \in BOOLEAN : Inject(d, rel) /\ E([n |-> "Inject", d |-> d, rel |-> rel])
-       \/ \E d \in D, k \in 1..MaxEp, o \in 1..MaxEp : StartPing(d, k, o) /\ E([n |-> "Ping", d |-> d, k |-> k, oldest |-> o])
+       \/ \E d \in D, k \in MinEp..MaxEp, o \in MinEp..(MaxEp + 1) : StartPing(d, k, o) /\ E([n |-> "Ping", d |-> d, k |-> k, oldest |-> o])
        \/ \E dt \in {1, Interval} : Tick(dt) /\ E([n |-> "Tick", dt |-> dt])
 
 P(act) == /\ PrintT(ToJson([src |-> Full, act |-> act, dst |-> Full', obs |-> ObsNext]))
